@@ -50,17 +50,18 @@ var formNames = []string{"properties", "patternProperties", "definitions", "depe
 
 // spellings of a reference from a source document to a target (document, pointer)
 const (
-	spShort    = iota // fragment-only inside a document, plain relative path otherwise
-	spDotSlash        // ./relative
-	spRootRel         // /absolute/path on the same scheme+host
-	spAbsolute        // full URL
-	spDetour          // x/../relative
-	spOwnFile         // own file name instead of fragment-only (same document)
-	spUpDown          // ../<dir>/relative (leave the directory and come back)
+	spShort     = iota // fragment-only inside a document, plain relative path otherwise
+	spDotSlash         // ./relative
+	spRootRel          // /absolute/path on the same scheme+host
+	spAbsolute         // full URL
+	spDetour           // x/../relative
+	spOwnFile          // own file name instead of fragment-only (same document)
+	spUpDown           // ../<dir>/relative (leave the directory and come back)
+	spAbsDetour        // absolute URL whose path makes a detour (/dir/x/../file.json)
 	nSpellings
 )
 
-var spellNames = []string{"short", "./relative", "root-relative", "absolute", "x/../detour", "own-file-name", "../dir/relative"}
+var spellNames = []string{"short", "./relative", "root-relative", "absolute", "x/../detour", "own-file-name", "../dir/relative", "absolute-with-detour"}
 
 type gedge struct {
 	From, To, Form, Spell int
@@ -84,6 +85,7 @@ type gspec struct {
 	EntrySpell int
 	IDs        []string // optional "id" per node ("" none)
 	NoDecoys   bool
+	LocalRefs  bool        // the root also holds a parameter / response that is a $ref to a parameter / response of the root
 	Breaks     map[int]int // edge index (or -1: entry refs to N0, -10-k: chain hop k) -> break mode
 }
 
@@ -284,6 +286,13 @@ func spell(src, dst, frag string, sp int) string {
 		if sameSite {
 			return rel() + hash
 		}
+	case spAbsDetour:
+		d2 := *du
+		d2.Path = path.Dir(du.Path) + "/x/../" + path.Base(du.Path)
+		if path.Dir(du.Path) == "/" {
+			d2.Path = "/x/../" + path.Base(du.Path)
+		}
+		return d2.Scheme + "://" + d2.Host + d2.Path + hash
 	case spUpDown:
 		if sameSite && path.Dir(su.Path) != "/" {
 			return "../" + path.Base(path.Dir(su.Path)) + "/" + rel() + hash
@@ -512,6 +521,14 @@ func (g *gspec) build() *built {
 		addParam()
 		addResp()
 		addPath()
+	}
+	if g.LocalRefs {
+		if ps, ok := root["parameters"].(map[string]interface{}); ok && ps["P"] != nil {
+			ps["PR"] = obj("$ref", "#/parameters/P")
+		}
+		if rs, ok := root["responses"].(map[string]interface{}); ok && rs["R"] != nil {
+			rs["RR"] = obj("$ref", "#/responses/R")
+		}
 	}
 	if g.Entry != entDefinition && g.Entry != entAll && g.Place[0] == 0 {
 		// N0 is a root definition anyway: fine, it is one more root element
